@@ -323,8 +323,13 @@ class CFG:
         """ Remove the terminals involved in a body of length more than 1 """
         term_to_var = {}
         new_productions = []
+        new_vars = set()
         for terminal in self._terminals:
             var = Variable(str(terminal.value) + "#CNF#")
+            while var in self._variables or var in new_vars:
+                # The name must not be the one of another variable
+                var = Variable(str(var.value) + "#CNF#")
+            new_vars.add(var)
             term_to_var[terminal] = var
         # We want to add only the useful productions
         used = set()
